@@ -1,7 +1,8 @@
 #!/usr/bin/env python3
 """Evaluate behaviour-preserving refactorings (written by independent sub-agents) against the proof units:
 every unit should keep all its obligations (no false alarm).  Usage: tools_refactor.py /tmp/ref  -> seeded/REFACTORINGS.json
-tools_refactor.py --stored  re-evaluates the patches kept in seeded/refactorings/ (R*: sub-agents, H*: hand-made, see REFACTORINGS.md).
+tools_refactor.py --stored [PATTERN ...]  re-evaluates the patches kept in seeded/refactorings/ (R*: sub-agents, H*: hand-made, see REFACTORINGS.md),
+all of them or those whose name matches one of the glob patterns (`--stored 'H2*' R20-R1`).
 With VERIF_REFACTOR_FULL=1 every patch is also put through the 20 registered quick checks (`./check CNN --tier quick`: units + ledger + linkage +
 signature defaults + order-site scan + bounded side); field `checks_alarmed` lists the checks that did not exit 0."""
 import glob, json, os, subprocess, sys, tempfile
@@ -34,7 +35,8 @@ def full_checks(wt):
         shutil.rmtree(evdir, ignore_errors=True)
 
 
-def main(root):
+def main(root, only=()):
+    """only: with --stored, glob patterns of patch names (without .diff) to restrict the run to"""
     out = {}
     wt = tempfile.mkdtemp(prefix='refwt-', dir='/tmp')
     os.rmdir(wt)
@@ -42,6 +44,9 @@ def main(root):
     try:
         stored = root == '--stored'
         diffs = glob.glob(os.path.join(VERIF, 'seeded', 'refactorings', '*.diff')) if stored else glob.glob(os.path.join(root, 'R*', 'deliver', 'R*.diff'))
+        if stored and only:
+            import fnmatch
+            diffs = [d for d in diffs if any(fnmatch.fnmatch(os.path.basename(d)[:-5], pat) for pat in only)]
         for diff in sorted(diffs):
             rid = os.path.basename(diff)[:-5] if stored else '%s-%s' % (diff.split('/')[-3], os.path.basename(diff)[:-5])
             r = sh('git apply %s' % diff, cwd=wt)
@@ -81,8 +86,9 @@ def main(root):
         json.dump(old, f, indent=1, sort_keys=True)
     n = len(out)
     a = sum(1 for v in out.values() if v.get('units_alarmed'))
-    print('refactorings:', n, 'raising an alarm in some unit:', a)
+    print('refactorings:', n, 'raising an alarm in some unit:', a,
+          'in some check:', sum(1 for v in out.values() if v.get('checks_alarmed')), 'quiet:', sum(1 for v in out.values() if not (v.get('units_alarmed') or v.get('checks_alarmed') or v.get('error'))))
 
 
 if __name__ == '__main__':
-    main(sys.argv[1] if len(sys.argv) > 1 else '/tmp/ref')
+    main(sys.argv[1] if len(sys.argv) > 1 else '/tmp/ref', sys.argv[2:])
